@@ -490,8 +490,26 @@ def opCli (args : List String) : String :=
     | none => bad
   | _ => bad
 
+/-- `gradient <space> <count> <k> (C)^k` → `ok` + hex-encoded stdout of `pastel gradient` (pipe). -/
+def opGradient (args : List String) : String :=
+  match args with
+  | sp :: n :: k :: rest =>
+    match spaceOf sp, n.toNat?, k.toNat? with
+    | some sp, some n, some k =>
+      match parseColors k rest with
+      | some (cols, []) =>
+        let samples := gradient (P := Float) cols n (fun a b f => mix sp a b f)
+        let lines := samples.map fun o => match o with
+          | some c => Fmt.hslString c false
+          | none => "<none>"
+        "ok " ++ showStr (String.ofList (lines.flatMap fun l => l.toList ++ ['\n']))
+      | _ => bad
+    | _, _, _ => bad
+  | _ => bad
+
 def runOp (st : OpState) (toks : List String) : OpState × String :=
   match toks with
+  | "gradient" :: args => (st, opGradient args)
   | "cli" :: args => (st, opCli args)
   | "sort" :: args => (st, opSort args)
   | "list" :: args => (st, opList args)
